@@ -96,6 +96,14 @@ impl Outcome {
     }
     pub fn fail(&mut self, sig: impl Into<String>, detail: impl Into<String>) {
         if self.failure.is_none() {
+            let (mut sig, detail) = (sig.into(), detail.into());
+            // errors of the shared session driver arrive as strings: a message that its peer cannot decode is a finding
+            // about the code, not about the harness
+            if detail.starts_with("wire:") {
+                if let Some(id) = sig.strip_suffix("/harness-error") {
+                    sig = format!("{id}/message-cannot-be-decoded-by-its-peer");
+                }
+            }
             self.failure = Some(Failure::new(sig, detail));
         }
     }
